@@ -758,6 +758,19 @@ def _c07_prefixes(tier):
                 if f["check"].startswith("tool."):
                     raise ToolError("harness: " + f["check"])
                 v.report(f["check"], {"t": rec["t"]}, "%s :: %s" % (vlib.show(rec["t"]), f["detail"]), rec)
+        # multi-block encrypted streams: the cuts on and around every block boundary (and the sampled ones) of the stream harness's
+        # large subjects, loaded through CryptoReader without a compression layer in between
+        sbin = vlib.cargo_build("stream")
+        tout = os.path.join(WORK, "c07_%s_crypto.out" % tier)
+        vlib.run_bin(sbin, ["tamper", tier, tout], timeout=6000)
+        for line in open(tout):
+            o = json.loads(line)
+            if o["kind"] == "cut":
+                v.report("c07.crypto.cut", {"t": None}, "encrypted stream of %s cut at byte %s: %s %s" % (o["subject"], o["pos"], o["result"], o.get("msg", "")[:120]), o)
+            elif o["kind"] == "filecut":
+                v.report("c07.crypto.filecut", {"t": None}, "load_encrypted_file on a file cut at byte %s: %s" % (o["pos"], o["result"]), o)
+            elif o["kind"] in ("cuts_done", "filecuts_done"):
+                cuts += o.get("cuts", o.get("n", 0))
         return cuts
     return run
 
